@@ -15,6 +15,7 @@ package main
 //         then "work=<ticks> g=<goroutines still alive>" measured after the producer settled.
 
 import (
+	"hash/fnv"
 	"fmt"
 	"math/rand"
 	"runtime"
@@ -65,7 +66,15 @@ func c12Interp() *prolog.Interpreter {
 }
 
 // c12Query returns the Prolog text for a query spec; side selects the tick predicate.
-func c12Query(spec string, side int) string {
+// the variant (drawn from the whole case) only changes HOW the final failure / error comes about, never
+// the outcome stream the specification sees
+func c12Variant(payload string) int {
+	h := fnv.New32a()
+	h.Write([]byte(payload))
+	return int(h.Sum32() % 7)
+}
+
+func c12Query(spec string, side int, variant int) string {
 	tick := []string{"tick_a", "tick_b"}[side]
 	f := strings.Fields(spec)
 	nums := func(k int) string {
@@ -79,11 +88,27 @@ func c12Query(spec string, side int) string {
 	case "fin":
 		k, err := strconv.Atoi(f[1])
 		must(err)
-		return fmt.Sprintf("( member(X, %s), %s ; %s, fail ).", nums(k), tick, tick)
+		end := []string{"fail", "\\+ true", "repeat, !, fail", "fail", "call(fail)", "findall(_, fail, [_|_])", "catch(fail, _, true)"}[variant]
+		return fmt.Sprintf("( member(X, %s), %s ; %s, %s ).", nums(k), tick, tick, end)
 	case "err":
 		k, err := strconv.Atoi(f[1])
 		must(err)
-		return fmt.Sprintf("( member(X, %s), %s ; %s, throw(oops) ).", nums(k), tick, tick)
+		end := []string{"throw(oops)", "repeat, throw(oops)", "\\+ \\+ throw(oops)", "catch(throw(oops), other, true)",
+			"findall(_, throw(oops), _)", "call((fail ; throw(oops)))", "once((repeat, throw(oops)))"}[variant]
+		return fmt.Sprintf("( member(X, %s), %s ; %s, %s ).", nums(k), tick, tick, end)
+	case "mix":
+		// answers 1, unbound, 3, unbound, ...: a later answer leaves X unbound
+		k, err := strconv.Atoi(f[1])
+		must(err)
+		xs := make([]string, k)
+		for i := range xs {
+			if i%2 == 0 {
+				xs[i] = strconv.Itoa(i + 1)
+			} else {
+				xs[i] = "_"
+			}
+		}
+		return fmt.Sprintf("( member(X, [%s]), %s ; %s, fail ).", strings.Join(xs, ","), tick, tick)
 	case "inf":
 		return fmt.Sprintf("between(1, 1000000000, X), %s.", tick)
 	case "cut":
@@ -93,17 +118,51 @@ func c12Query(spec string, side int) string {
 	panic("bad query spec " + spec)
 }
 
+type c12ScanState struct {
+	n int
+	a struct{ X interface{} }
+}
+
+// touched only by the one consumer goroutine of the running case (the streams are serial)
+var c12ScanStates = map[*prolog.Solutions]*c12ScanState{}
+
 // c12Call performs one call on sols and renders its result.
 func c12Call(sols *prolog.Solutions, op byte) string {
 	switch op {
 	case 'N':
 		return "N:" + strconv.FormatBool(sols.Next())
 	case 'S':
-		m := map[string]interface{}{}
-		if err := sols.Scan(m); err != nil {
+		// The destination rotates per Solutions: a fresh map, a struct REUSED by every third Scan of this
+		// Solutions (it still holds what an earlier answer put there), and a struct of another type (other
+		// field order): Scan reports the most recent answer whatever was scanned before, into whatever.
+		st := c12ScanStates[sols]
+		if st == nil {
+			st = &c12ScanState{}
+			c12ScanStates[sols] = st
+		}
+		st.n++
+		var xv interface{}
+		var err error
+		switch st.n % 3 {
+		case 1:
+			m := map[string]interface{}{}
+			err = sols.Scan(m)
+			xv = m["X"]
+		case 2:
+			err = sols.Scan(&st.a)
+			xv = st.a.X
+		default:
+			var b struct {
+				Y interface{}
+				X interface{}
+			}
+			err = sols.Scan(&b)
+			xv = b.X
+		}
+		if err != nil {
 			return "S:scanerr(" + encName(err.Error()) + ")"
 		}
-		switch x := m["X"].(type) {
+		switch x := xv.(type) {
 		case nil:
 			return "S:-"
 		case int:
@@ -206,7 +265,7 @@ func runC12Seq(payload string) string {
 	cons := newC12Consumer()
 	base++ // the consumer goroutine stays parked until stop()
 	atomic.StoreInt64(&c12.ticks[0], 0)
-	sols, err := i.Query(c12Query(spec, 0))
+	sols, err := i.Query(c12Query(spec, 0, c12Variant(payload)))
 	must(err)
 	var res []string
 	mayExit, blocked := false, false
@@ -301,7 +360,7 @@ func genC12Seq(r *rand.Rand, n int, tier string) []string {
 	if tier == "thorough" {
 		maxLen = 7
 	}
-	specs := []string{"fin 0", "fin 1", "fin 2", "fin 3", "err 0", "err 1", "err 2", "inf", "cut"}
+	specs := []string{"fin 0", "fin 1", "fin 2", "fin 3", "err 0", "err 1", "err 2", "inf", "cut", "mix 3", "mix 4"}
 	var out []string
 	for _, seq := range c12AllSeqs(maxLen) {
 		for _, sp := range specs {
@@ -332,7 +391,7 @@ func runC12Inter(payload string) string {
 	for k := 0; k < 2; k++ {
 		atomic.StoreInt64(&c12.ticks[k], 0)
 		var err error
-		sols[k], err = i.Query(c12Query(strings.TrimSpace(specs[k]), k))
+		sols[k], err = i.Query(c12Query(strings.TrimSpace(specs[k]), k, c12Variant(payload)))
 		must(err)
 	}
 	var res []string
@@ -389,7 +448,7 @@ func genC12Inter(r *rand.Rand, n int, tier string) []string {
 	if tier == "thorough" {
 		maxLen = 4
 	}
-	specs := []string{"fin 1", "fin 2", "err 1", "inf"}
+	specs := []string{"fin 1", "fin 2", "err 1", "inf", "mix 3"}
 	var steps []string
 	for _, s := range []string{"a", "b"} {
 		for _, o := range c12Ops {
